@@ -103,6 +103,12 @@ def rules(fx, rep):
             x, neg = tt.strip_not(lab)
             truth = (taken != 0) != neg
             kind = x[0] if isinstance(x, tuple) and x else None
+            if kind in ('eq', 'ne') and len(x) >= 3 and (x[1] == ('zero',) or x[2] == ('zero',)):
+                # a comparison with zero() is the zero test of the other side
+                other_ = x[2] if x[1] == ('zero',) else x[1]
+                truth = truth if kind == 'eq' else not truth
+                x = ('is_zero', other_) + tuple(x[3:])
+                kind = 'is_zero'
             if kind in ('inverse', 'is_zero'):
                 if kind == 'inverse':
                     ks = set(power(e[1]) for e in pth.events if e[0] == 'inverse-of' and e[2] == x[1])
